@@ -247,7 +247,7 @@ class World(object):
     """One execution's worth of real stack + doubles."""
 
     def __init__(self, variant="XX", edge=False, corrupt=False, passive=False, burst=0, top_layers=None,
-                 ping_interval=0, extra_props=None, with_success=False):
+                 ping_interval=0, extra_props=None, with_success=False, app_cls=None):
         install_controlled_primitives()
         env.fix_clock()
         env.reset_ids()
@@ -293,7 +293,7 @@ class World(object):
         props.update(extra_props or {})
         self.passive = passive
         self.stack = YowStack((YowNetworkLayer, YowNoiseSegmentsLayer, YowNoiseLayer, YowCoderLayer,
-                               YowParallelLayer(proto), AppProbe), reversed=False, props=props)
+                               YowParallelLayer(proto), app_cls or AppProbe), reversed=False, props=props)
         self.stack.setProp(YowNetworkLayer.PROP_ENDPOINT, ("e1.whatsapp.net", 443))
         self.net = self.stack.getLayer(0)
         self.seg = self.stack.getLayer(1)
